@@ -161,6 +161,33 @@ def differential(tier='quick', seed=0):
                 fails.append({'call': f'byteswap({fmt!r}) twice on {data!r}', 'python': "FAILS = True"})
         except ValueError:
             pass
+    # Array.byteswap converts between the two encodings of every whole-byte item, twice is the identity, other widths are refused
+    for _ in range(200):
+        evals += 1
+        code, lo, hi = rng.choice([('h', -2 ** 15, 2 ** 15 - 1), ('H', 0, 2 ** 16 - 1), ('l', -2 ** 31, 2 ** 31 - 1), ('Q', 0, 2 ** 64 - 1), ('B', 0, 255)])
+        vals = [rng.choice([lo, hi, 0, 1, rng.randint(lo, hi)]) for _ in range(rng.randint(0, 6))]
+        tb = rng.choice(['', '', '0b1', '0b10110'])
+        try:
+            le = Array('<' + code, vals, trailing_bits=tb or None) if code != 'B' else Array('uint8', vals, trailing_bits=tb or None)
+            be = Array('>' + code, vals, trailing_bits=tb or None) if code != 'B' else Array('uint8', vals, trailing_bits=tb or None)
+            sw = Array(le.dtype, le.data)
+            sw.byteswap()
+            ok = sw.data.bin == be.data.bin
+            sw.byteswap()
+            ok = ok and sw.data.bin == le.data.bin and sw.tolist() == vals
+        except Exception as e:
+            ok = False
+        if not ok:
+            fails.append({'call': f"Array('<{code}', {vals!r}, trailing_bits={tb!r}).byteswap()", 'observed': 'not the big-endian encoding / not an involution',
+                          'python': f"import bitstring\nv = {vals!r}\na = bitstring.Array('<{code}' if '{code}' != 'B' else 'uint8', v); b = bitstring.Array('>{code}' if '{code}' != 'B' else 'uint8', v)\n"
+                                    "a.byteswap(); x = a.data.bin == b.data.bin; a.byteswap()\nFAILS = not (x and a.tolist() == v)\n"})
+    for w in ('uint12', 'int5', 'bin3', 'bool'):
+        evals += 1
+        try:
+            Array(w, []).byteswap()
+            fails.append({'call': f"Array({w!r}).byteswap()", 'observed': 'accepted although the item is not whole bytes', 'python': "FAILS = True"})
+        except ValueError:
+            pass
     # native '@' sizes (alignment-free single codes)
     native = []
     for c in CODES:
